@@ -17,7 +17,7 @@ func init() {
 		Decided: "R1 inside the destination's relay loop no potentially blocking operation is reachable (channel operations outside select-with-default, sleeps, waits, socket or file I/O, mutexes held across such operations) other than the loop's own select; the two operator-initiated synchronous commands (flush, shutdown) are exempted by key; " +
 			"R2 each carbon route's Dispatch performs only non-blocking work plus the rendezvous send to that loop; " +
 			"R3 connecting (net.Dial*) is never reachable synchronously from the loop, only through `go`; " +
-			"R4 every line received by the loop ends in exactly one disposition (queued to the connection, counted slow_conn, queued to the spool, counted slow_spool, counted conn_down_no_spool), likewise for unspooled lines, and the connection writer counts a line as sent exactly when Write succeeded.",
+			"R4 every line received by the loop ends in exactly one disposition (queued to the connection, counted slow_conn, queued to the spool, counted slow_spool, counted conn_down_no_spool), likewise for unspooled lines, and the connection writer counts a line as sent exactly when Write succeeded; the counters handed out by package stats are the instances registered under their name, so what a destination counts is what is reported.",
 		NotDecided:  "a wall-clock bound; OS socket behaviour; that the counters equal what the endpoint did not receive (needs C05's undecided buffer arithmetic).",
 		Assumptions: []string{"logging (logrus) and go-metrics updates do not block", "a rendezvous send to a select loop that has no blocking operation in its bodies completes as soon as the loop comes round"},
 		Rules: []RuleDef{
@@ -31,7 +31,7 @@ func init() {
 			{ID: "C06.R3", Min: 1, Doc: "dialling is never inline: net.Dial* is unreachable from relay over call/defer edges", Run: c06r3},
 			{ID: "C06.R5", Min: 1, Doc: "fresh liveness: on every path from the relay loop's header to its select on which a connection is held (conn != nil), conn.isAlive() was evaluated in that iteration — the conn != nil decision of the `<-dest.In` case (write vs. count as conn-down drop) is never made on a connection that died before the iteration", Run: c06r5},
 			{ID: "C06.R6", Min: 3, Doc: "no silent loss on a healthy connection: what Conn.Write hands to the buffered writer is the complete line and its newline (or the complete pickle frame), and the buffered writer copies only into free space of its buffer — bytes that vanish there are lost without any counter moving (rules C05.R3 and C05.R5 evaluated for this property as well)", Run: func(c *Check) { c05r3(c); c05r5(c) }},
-			{ID: "C06.R4", Min: 3, Doc: "disposition accounting: path enumeration of the `<-dest.In` and `<-toUnspool` case bodies and of HandleData's `<-c.In` case", Run: c06r4},
+			{ID: "C06.R4", Min: 7, Doc: "disposition accounting: path enumeration of the `<-dest.In` and `<-toUnspool` case bodies and of HandleData's `<-c.In` case; every metric constructor of package stats returns the instance the registry holds under the name (the result of get-or-register), never a freshly built one", Run: c06r4},
 		},
 	})
 }
@@ -545,6 +545,10 @@ func c06r4(c *Check) {
 	}
 	check("In", dispositions)
 	check("toUnspool", []string{"send:conn.In", "inc:numDropSlowConn"})
+	// the counters that are incremented are the ones the registry reports
+	if metricsAreRegistered(c) == 0 {
+		anchorFail("package stats: no function handing out a go-metrics metric found")
+	}
 	// HandleData: numOut exactly on the success edge of Write
 	hd := c.P.Func("destination", "*Conn", "HandleData")
 	connIn := c.P.Field("destination", "Conn", "In")
@@ -656,4 +660,100 @@ func c06r4(c *Check) {
 	} else {
 		c.Judge(bad == "" && !wtrunc && nErr > 0, "destination.Conn.Write errors mean I/O errors", c.AtFn(wr), fmt.Sprintf("%d paths, %d may return an error, all after a write to the buffered writer", len(wpaths), nErr), bad)
 	}
+}
+
+// metricsAreRegistered: a loss is only "counted" if the counter that is incremented is the one the
+// registry reports under its name. Every function of package stats that hands out a go-metrics metric
+// must return the registry's instance for the name — the result of a get-or-register (or lookup) call
+// of the registry — on every return; a freshly constructed metric that was merely offered to the
+// registry (Register / NewRegistered*, which keep the older instance when the name exists and still
+// return the new one) is a private object nobody reads once a name is asked for a second time
+// (destination re-added under the same key, every reconnect).
+func metricsAreRegistered(c *Check) int {
+	const mpkg = "github.com/Dieterbe/go-metrics"
+	isRegistryInstance := func(call *ssa.Call) bool {
+		cc := call.Common()
+		if cc.IsInvoke() {
+			if cc.Method.Pkg() == nil || cc.Method.Pkg().Path() != mpkg {
+				return false
+			}
+			return cc.Method.Name() == "GetOrRegister" || cc.Method.Name() == "Get"
+		}
+		g := cc.StaticCallee()
+		if g == nil || fnPkg(g) == nil || fnPkg(g).Path() != mpkg {
+			return false
+		}
+		return strings.HasPrefix(g.Name(), "GetOrRegister") || g.Name() == "Get"
+	}
+	n := 0
+	for _, fn := range c.P.Funcs {
+		if fn.Parent() != nil || fn.Blocks == nil || fn.Synthetic != "" || fnPkg(fn) == nil || fnPkg(fn).Path() != modPath+"/stats" {
+			continue
+		}
+		res := fn.Signature.Results()
+		if res.Len() != 1 {
+			continue
+		}
+		named, ok := res.At(0).Type().(*types.Named)
+		if !ok || named.Obj().Pkg() == nil || named.Obj().Pkg().Path() != mpkg {
+			continue
+		}
+		if _, isIface := named.Underlying().(*types.Interface); !isIface {
+			continue
+		}
+		n++
+		bad := ""
+		seen := map[ssa.Value]bool{}
+		var walk func(v ssa.Value, at ssa.Instruction)
+		walk = func(v ssa.Value, at ssa.Instruction) {
+			if v == nil || seen[v] {
+				return
+			}
+			seen[v] = true
+			switch x := v.(type) {
+			case *ssa.Phi:
+				for _, e := range x.Edges {
+					walk(e, at)
+				}
+				return
+			case *ssa.TypeAssert:
+				walk(x.X, at)
+				return
+			case *ssa.ChangeInterface:
+				walk(x.X, at)
+				return
+			case *ssa.Extract:
+				if ta, ok := x.Tuple.(*ssa.TypeAssert); ok && x.Index == 0 {
+					walk(ta.X, at)
+					return
+				}
+			case *ssa.UnOp:
+				if s := strip(v); s != v {
+					walk(s, at)
+					return
+				}
+			case *ssa.Call:
+				if isRegistryInstance(x) {
+					return
+				}
+				// a helper of the package that itself hands out the registry's instance
+				if g := x.Call.StaticCallee(); g != nil && g.Blocks != nil && fnPkg(g) == fnPkg(fn) && len(seen) < 64 {
+					allInstrs(g, func(in ssa.Instruction) {
+						if r, ok := in.(*ssa.Return); ok && in.Parent() == g && len(r.Results) == 1 {
+							walk(r.Results[0], at)
+						}
+					})
+					return
+				}
+			}
+			bad = "returns " + describeVal(v) + " at " + c.At(at)
+		}
+		allInstrs(fn, func(in ssa.Instruction) {
+			if r, ok := in.(*ssa.Return); ok && in.Parent() == fn && len(r.Results) == 1 {
+				walk(r.Results[0], in)
+			}
+		})
+		c.Judge(bad == "", FuncName(fn)+" hands out the registered metric", c.AtFn(fn), "every return yields what the registry's get-or-register returned for the name", FuncName(fn)+" "+bad+", which is not the instance the registry holds under the name: when the name is already registered (a destination added again under the same key, every reconnect) the caller increments a private metric and the losses it counts are never reported")
+	}
+	return n
 }
